@@ -323,11 +323,14 @@ func (s *workState) lifecycle(i, ph int) func() error {
 			// clause 1: contexts of running work of this module are cancelled by now
 			for _, r := range s.recs {
 				if s.p.Items[r.Item].Mod == i && !r.Ended && r.ctx != nil && r.ctx.Err() == nil {
+					if s.prop == "C01" {
+						continue
+					}
 					s.rc.Fail("C05.ctx-not-cancelled-at-stop", "stop routine invoked while the context of running work was not cancelled",
 						fmt.Sprintf("module %s item %d (%s)", modName(i), r.Item, s.p.Items[r.Item].Kind))
 				}
 			}
-			if s.mods[i].Ctx.Err() == nil {
+			if s.mods[i].Ctx.Err() == nil && s.prop != "C01" {
 				s.rc.Fail("C05.ctx-not-cancelled-at-stop", "stop routine invoked while the module context was not cancelled", modName(i))
 			}
 			if d := durLadder[m.StopDur]; d > 0 {
@@ -700,7 +703,7 @@ func execWork(prop string, p *WorkPlan, rc *simkit.RunCtx) {
 			s.afterStopReturn("Shutdown returned to a second caller")
 			if s.startErr == nil {
 				for i, m := range s.mods {
-					if m.Online() && !rc.Failed() {
+					if m.Online() && !rc.Failed() && prop != "C01" {
 						rc.Fail("C05.online-after-shutdown", "a module was still online (its work not cancelled, its stop routine not invoked) when Shutdown returned", modName(i)+" (second caller)")
 					}
 				}
@@ -717,7 +720,7 @@ func execWork(prop string, p *WorkPlan, rc *simkit.RunCtx) {
 	s.afterStopReturn("Shutdown returned")
 	if s.startErr == nil {
 		for i, m := range s.mods {
-			if m.Online() && !rc.Failed() {
+			if m.Online() && !rc.Failed() && prop != "C01" {
 				rc.Fail("C05.online-after-shutdown", "a module was still online (its work not cancelled, its stop routine not invoked) when Shutdown returned", modName(i))
 			}
 		}
@@ -844,6 +847,9 @@ func (s *workState) final() {
 		rc.Fail("C06.report-count", "an error report went to a channel that had been replaced by a later registration", me.Error())
 		return
 	}
+	if s.prop == "C01" {
+		return
+	}
 	if len(s.postRan) > 0 {
 		rc.Fail("C05.ran-on-stopped-module", "a task created for a stopped module was executed", s.postRan[0])
 		return
@@ -875,6 +881,25 @@ func checkWork(prop string, p *WorkPlan, rc *simkit.RunCtx) {
 		return
 	}
 	if !s.shutdownCalled || s.shutdownReturnedT == 0 {
+		return
+	}
+	if prop == "C01" {
+		// second stage of C01: a module's stop routine begins only after every started module that depends on it
+		// has completely stopped - its stop routine and its managed work have returned (as long as they return
+		// within the stop timeout; what a stop may give up on is C05's subject)
+		for _, po := range s.pending {
+			if po.At != "a module it depends on began stopping" || po.Seq != s.stopBeginSeq[po.Mod] || !s.timely(po.Mod) {
+				continue
+			}
+			what := "its stop routine had not returned"
+			if po.Rec != nil {
+				what = fmt.Sprintf("item %d (%s) of it was still running", po.Rec.Item, p.Items[po.Rec.Item].Kind)
+			}
+			rc.Fail("C01.stop-order", "a module's stop routine began before a started module that depends on it had completely stopped (stop routine or managed work still running)",
+				fmt.Sprintf("dependant %s: %s", modName(po.Mod), what))
+			return
+		}
+		rc.Probe("stop-order-with-work-judged")
 		return
 	}
 	// hooks triggered on stopped modules must not have run: a hook record with data -1-i cannot exist by construction (body filters), fine.
